@@ -608,20 +608,9 @@ def postfix_node_typing(ctx):
                 ctx.check(f"x{'++' if hname == 'INC' else '--'} on a {'s' if signed else 'u'}{w} variable: type of the value and width of the operation", got == exp, str(exp), str(got), fn_where(idx, fi), nontrivial=(w < 32))
 
 
-@rule("R03.10", "C03", "the types conversions start from and end in are the declared ones: C type names denote sign and width by their spelling; nodes that yield a truth value are typed as one", min_instances=20)
-def r03_10(ctx):
-    from .c08 import c_type_table
-    from .c10 import bool_node_classes_declare_bool
-
-    c_type_table(ctx)
-    bool_node_classes_declare_bool(ctx)
-    from .c07 import r07_5
-
-    init_a_cast_kind_independence(ctx)
-    declared_type_callbacks(ctx)
-    postfix_node_typing(ctx)
-    r07_5(ctx)  # immediates: sign by the letter class (#r / #s signed in both cases of the letter, the others unsigned)
-    # a memory load yields a value of the ACCESS type (mem_load_s16 is a signed 16 bit value): widening it extends by that sign
+def memload_typing(ctx):
+    """a memory load yields a value of the ACCESS type (mem_load_s16 is a signed 16 bit value, mem_load_s32 a signed 32 bit one): widening
+    it - to a register pair, a 64 bit variable - extends by that sign"""
     idx = get_index(ctx.env)
     fi = idx.resolve_method("MemLoad", "__init__")
     ctx.need(fi is not None, "MemLoad.__init__ not found")
@@ -635,3 +624,19 @@ def r03_10(ctx):
             outs = Interp(idx).explore(once)
             got = sorted({(o.value.fields.get("_signed"), o.value.fields.get("_bit_width")) if o.kind == "return" and isinstance(o.value, AObj) else ("?",) for o in outs})
             ctx.check(f"MemLoad of access type {'s' if signed else 'u'}{w} is typed {'s' if signed else 'u'}{w}", got == [(signed, w)], str((signed, w)), str(got), fn_where(idx, fi))
+
+
+@rule("R03.10", "C03", "the types conversions start from and end in are the declared ones: C type names denote sign and width by their spelling; nodes that yield a truth value are typed as one", min_instances=20)
+def r03_10(ctx):
+    from .c08 import c_type_table
+    from .c10 import bool_node_classes_declare_bool
+
+    c_type_table(ctx)
+    bool_node_classes_declare_bool(ctx)
+    from .c07 import r07_5
+
+    init_a_cast_kind_independence(ctx)
+    declared_type_callbacks(ctx)
+    postfix_node_typing(ctx)
+    r07_5(ctx)  # immediates: sign by the letter class (#r / #s signed in both cases of the letter, the others unsigned)
+    memload_typing(ctx)
